@@ -82,6 +82,36 @@ check(
     'DESIGN 3 (C06), 2.2',
 )
 
+check(
+    'C09',
+    'blocksim',
+    'exploration',
+    'Seeded fault sequences on the real Adaptivity/AdaptivityRK + limiters + BasicRestartingNonMPI + SpreadStepSizesBlockwiseNonMPI under the '
+    'real controller_nonMPI: scripted error estimates (physical background c*dt^(order+1) x noise, excursions, exact ties, failure runs longer '
+    'than the retry budget) and restart requests at (block, slot) positions, plus real adaptive runs on van der Pol / Lorenz / Dahlquist. Six '
+    'oracles: restart position and value (bitwise), one step size per block (bitwise), retry budget + counter hand-over against a reference + '
+    'progress, accept criterion, proposal formula and limiter chain against a 15-line reference (8 eps), retry smaller unless a lower limit binds.',
+    'Part A overwrites the value of the embedded estimate at control order -60; everything else is shipped code. Runs hitting the block/step cap '
+    'are skipped and counted (no liveness claim for adversarial scripts). Polynomial/extrapolation estimators not driven yet. MPI flavours: C08.',
+    'deterministic simulation: seeded error-estimate/restart fault sequences on the real step-size controllers, reference-model comparison of every decision point in the recorded history',
+    'DESIGN 3 (C09), 2.2',
+)
+
+check(
+    'C14',
+    'blocksim',
+    'exploration',
+    'The restart/step-size/convergence histories of C06, C07 and C09-A are run with every per-step logging hook enabled; the reference is the '
+    'observer event log, independent eval_f counts from counting problem subclasses and a spy on Hooks.add_to_stats. Checked per accepted step '
+    'and quantity: exactly one record after filter_stats(recomputed=False), key fields (process, iter, num_restarts), values (niter vs callbacks, '
+    'dt, u bits, work counters), overwritten records, untyped filtering, filter/sort helpers against reference comprehensions.',
+    'Known findings F03 (restart count not monotone per time key defeats the recomputed filter) and F04 (middle-level sweep key collision) are '
+    'reported as KNOWN-FINDING; violations at time keys tainted by F03 are attributed to it. Aborted runs (ConvergenceError) are not judged. '
+    'timing_* records excluded.',
+    'deterministic simulation: seeded restart histories with logging hooks, statistics compared with an independent event-log reference model',
+    'DESIGN 3 (C14), 2.2',
+)
+
 
 def build():
     claimed = sorted(CHECKS)
